@@ -331,16 +331,16 @@ func TestVerifC07Controller(t *testing.T) {
 		return &c07Fwd{up: c07UpOfHost(upstream.Hostname)}, nil
 	}
 
-	nCfg, perCfg, maxRules := 120, 12, 5
+	nCfg, perCfg, maxRules := 300, 12, 5
 	if VThorough() {
-		nCfg, perCfg, maxRules = 1200, 20, 8
+		nCfg, perCfg, maxRules = 4000, 16, 8
 	}
 	nCfg = VEnvInt("C07_NCFG_CTL", nCfg)
 	for ci := 0; ci < nCfg; ci++ {
 		nUp := []int{0, 1, 2, 2, 3, 3, 4}[r.Intn(7)]
 		reqRules := c07GenRules(r, nUp, false, maxRules, stats)
 		var respRules []c07Rule
-		if nUp > 0 && r.Chance(0.45) {
+		if nUp > 0 && r.Chance(0.3) {
 			respRules = c07BouncyResp(r, nUp, stats)
 			if r.Bool() {
 				respRules = append(respRules, c07GenRules(r, nUp, true, 2, stats)...)
@@ -361,7 +361,11 @@ func TestVerifC07Controller(t *testing.T) {
 			UpstreamReadyCallback: func(*componentdns.Upstream) error { return nil },
 		})
 		if err != nil {
-			st.Emit(cfgOp, "builderr")
+			if strings.Contains(err.Error(), "too many routing rules") {
+				stats.Inc("cfg.skipped-over-size-limit")
+			} else {
+				st.Emit(cfgOp, "builderr")
+			}
 			continue
 		}
 		st.Emit(cfgOp, "ok")
